@@ -69,7 +69,8 @@ for (f, i, a, b, rep, fk) in cands:
         if t.returncode != 0:
             res['KILLED-BY-TESTS'] += 1
             print('KILLED-BY-TESTS %s:%d %s %s' % (f, i + 1, fk, desc), flush=True); continue
-        v = subprocess.run(['/verif/bin/govc', 'verify', '-t', '10', fk], env=dict(env, GOVC_REPO=repo), capture_output=True, text=True, timeout=900)
+        targets = [fk] + [k for k in keys if k.startswith(fk + '$') and k in contracted]
+        v = subprocess.run(['/verif/bin/govc', 'verify', '-t', '10'] + targets, env=dict(env, GOVC_REPO=repo), capture_output=True, text=True, timeout=900)
         bad = [l for l in v.stdout.split('\n') if l.startswith('  FAIL') or 'ENGINE ERROR' in l]
         if bad:
             res['DETECTED'] += 1
